@@ -197,6 +197,32 @@ is put around a block whose Select had to be widened by columns other clauses ne
 replaying every recorded call (tools/anchortrace.py: the returned pipeline must agree, `determine_select_columns` must agree).
 Whatever the pipeline and wherever it is cut: the block that is compiled to the SELECT of this relation selects exactly the
 requested columns, so helper columns never reach the result and no requested column is dropped or duplicated. -/
+/-! ### the alias decision of translate_select_item (tie: every recorded call replayed, tools/props/c05.py) -/
+section Alias
+
+/-- the database returns every select item under the name the frame gives the column - whatever name the emitted expression
+would have by itself, whatever the generated name -/
+theorem select_item_carries_the_frame_name (inferred : Option Ident) (n fresh : Ident) :
+    resultName inferred (some n) fresh = some n := by
+  unfold resultName aliasOf
+  by_cases h : inferred = some n <;> simp [h]
+
+/-- an alias is written exactly when the two names differ -/
+theorem alias_only_when_needed (inferred expected : Option Ident) (fresh : Ident) :
+    aliasOf inferred expected fresh = none ↔ inferred = expected := by
+  unfold aliasOf
+  by_cases h : inferred = expected <;> simp [h]
+
+/-- ... and "differ" is exact: a column whose name differs from the inferred one only in letter case is aliased (the seeded
+change C05-m1 compared case-insensitively) -/
+theorem alias_comparison_is_exact : aliasOf (some ['a']) (some ['A']) ['_', 'e'] = some ['A'] := by decide
+
+/-- a column without a name in the frame never shows the inferred name: it gets a generated one -/
+theorem unnamed_column_hides_the_inferred_name (n fresh : Ident) : resultName (some n) none fresh = some fresh := by
+  simp [resultName, aliasOf]
+
+end Alias
+
 section ExtractAtomic
 open Model.Anchor Lemmas.Anchor
 
